@@ -689,7 +689,7 @@ pub fn def() -> PropertyDef {
                u uniform 9..700 with invalid members placed at generated positions (first, last, 254..257, 511..513, random), a verify mode and a \
                permutation. Oracle: Ok <=> every member valid; on Ok exactly k results, result i == mask expected for member i; verdict and masks \
                invariant under the permutation. Second generator: malformed batches (empty, ragged sequences, one individually valid member of \
-               other bit length / degree / h / g_k at any position incl. >= 256) must be refused. Third generator: batches of 2-5 valid members where two (or three) members get shifts of one d1 coordinate that sum to zero: none verifies alone, the batch must be refused. Non-trivial = k >= 2 and (an invalid member \
+               other bit length / degree / h / g_k at any position incl. >= 256) must be refused. Third generator: batches of 2-5 valid members where two (or three) members get shifts of one d1 coordinate that sum to zero: none verifies alone, the batch must be refused. Fourth generator (engine F): C08's adaptive histories - offsets on d1[k] of two members (or of both copies of a repeated member and a third member) computed from the factors with which unit shifts entered the final equation on EARLIER RUNS of the same batch, or assumed equal; a batch the library accepts although it rejects one of the altered members alone breaks the equivalence. Non-trivial = k >= 2 and (an invalid member \
                present or k > 256 or >= 2 distinct (m, capacity)); distinct by (k class, invalid-position class, mixture, mode, bits, degree, k)."
             .into(),
         assumptions: vec![
@@ -704,6 +704,9 @@ pub fn def() -> PropertyDef {
             shape_sub::<R>((300, 3000)),
             cancel_sub::<F>((3000, 30_000)),
             cancel_sub::<R>((300, 3000)),
+            // offsets computed from the combination factors observed on an earlier run (C08's history generator), judged here only
+            // for the equivalence: accepted as a batch although the library rejects an altered member alone
+            sub("F/adaptive-cancellation", no_fixed, (2000, 25_000), |_: &RunCtx, _: Option<&()>| crate::props::c08::hist_strategy(), crate::props::c08::oracle_iff_only),
         ],
     }
 }
